@@ -26,3 +26,22 @@ void h_touchNote(void)
     REACH(br < 127 && !g_synth.m_scaleModulators && in_alg == 0, "brightness path"); REACH(c >= 6 && g_synth.m_numChips > 1, "second chip");
     REACH(cv == 0, "silent");
 }
+
+uint8_t in_dtmul[4]; double in_tone;
+double nondet_double(void);
+void h_noteOn(void)
+{
+    size_t c = nondet_size(); double tone = nondet_double();
+    g_synth.m_insCache = g_insCache_storage; g_synth.m_regLFOSens = g_regLFOSens_storage;
+    for(int i = 0; i < 4; i++) in_dtmul[i] = nondet_u8();
+    in_c = c; in_tone = tone; in_nchips = g_synth.m_numChips;
+    noteOn(c, tone);
+    REACH(g_tap_n == 7, "note keyed"); REACH(g_tap_n == 0, "refused"); REACH(g_tap_n == 7 && (g_tap[0].val & 0x0F) == 0x0F && (in_dtmul[0] & 0x0F) == 3, "multiplier saturated");
+    REACH(g_tap_n == 7 && g_tap[4].val == 0x3F, "top block"); REACH(g_tap_n == 7 && g_tap[6].val == 0xF6, "channel 6 key-on");
+}
+void h_noteOff(void)
+{
+    size_t c = nondet_size();
+    noteOff(c);
+    REACH(g_tap[0].val == 5, "channel 5");
+}
